@@ -33,6 +33,9 @@ pub struct Expect {
     /// Some(id) when the id on the wire is known in advance (server responses: the request id;
     /// pushed notifies: 0); None when the endpoint assigns it (clients).
     pub fixed_id: Option<u64>,
+    /// bytes that precede the pattern bytes in the body (empty for raw bodies), and the body-format code on the wire
+    pub body_prefix: Vec<u8>,
+    pub body_format: u16,
 }
 
 #[derive(Default)]
@@ -65,11 +68,13 @@ pub fn expected_bytes(e: &Expect, wire_id: u64) -> Vec<u8> {
         reserved: 0,
         id: e.fixed_id.unwrap_or(wire_id),
         query_format: 1,
-        body_format: 0,
+        body_format: e.body_format,
         ec: 0,
         ..Default::default()
     };
-    oracle::frame(h, &e.query, &pat_fill(e.token, e.body_len))
+    let mut body = e.body_prefix.clone();
+    body.extend_from_slice(&pat_fill(e.token, e.body_len));
+    oracle::frame(h, &e.query, &body)
 }
 
 #[derive(Clone, Debug)]
@@ -359,7 +364,7 @@ pub fn walk(stream: &[u8], book: &Book) -> Walk {
 mod tests {
     use super::*;
     fn ex(token: u64, len: usize) -> Expect {
-        Expect { token, kind: "t", notify: 1, query: format!("/c05/{token:x}").into_bytes(), body_len: len, fixed_id: None }
+        Expect { token, kind: "t", notify: 1, query: format!("/c05/{token:x}").into_bytes(), body_len: len, fixed_id: None, body_prefix: vec![], body_format: 0 }
     }
     #[test]
     fn walk_classifies() {
